@@ -604,6 +604,14 @@ type imgCtx struct {
 
 var imgSeq int64
 
+// ffldb.openDB does not close the leveldb handle when reconcileDB fails, so every
+// image whose database.Open fails leaks file descriptors and two 4 MiB memdbs.
+// (Never happens on a tree that satisfies the property.)  After maxFailedOpens
+// such images part 2 stops enumerating; the violations found so far stand.
+const maxFailedOpens = 200
+
+var failedOpens int64
+
 // check materialises and opens one image; returns (class, description) or ("","").
 func (ic *imgCtx) check(rc *recording, cc imgCase) (string, string) {
 	ds := stateAt(rc.log, cc.Prefix)
@@ -669,7 +677,11 @@ func (ic *imgCtx) check(rc *recording, cc imgCase) (string, string) {
 		return "open-panic", fmt.Sprintf("opening the crash image panicked: %s (%s)", panicked, where)
 	}
 	if oerr != nil {
+		if strings.Contains(oerr.Error(), "too many open files") {
+			return "harness", oerr.Error()
+		}
 		if strings.HasPrefix(oerr.Error(), "db open:") {
+			atomic.AddInt64(&failedOpens, 1)
 			return "database-open-failed", fmt.Sprintf("database.Open of the crash image failed: %v (%s)", oerr, where)
 		}
 		return "chain-init-failed", fmt.Sprintf("blockchain.New on the crash image failed: %v (%s)", oerr, where)
@@ -721,17 +733,18 @@ func imgClass(what string) string {
 // ---------------------------------------------------------------- enumeration
 
 type imgJob struct {
-	rec     int // index of the recording
-	prefix  int
-	dropped []int
-	torn    bool
+	rec      int // index of the recording
+	prefix   int
+	dropped  []int
+	torn     bool
+	recCache int64 // utxo cache size of the restarted node; -1: as before the crash
 }
 
 type imgStats struct {
 	Commits        int            `json:"commits"`
 	LogEvents      map[string]int `json:"log_events_per_regime"`
 	Enumerated     int            `json:"images_enumerated"`
-	Distinct       int            `json:"distinct_images_opened"`
+	Distinct       int            `json:"distinct_images_opened"` // x recovery cache sizes
 	MaxUnsynced    int            `json:"max_unsynced_writes"`
 	PrefixesCapped int            `json:"prefixes_with_subset_cap_applied"`
 	MetaStates     int            `json:"distinct_leveldb_states"`
@@ -812,7 +825,7 @@ func imgConfigs(wls []*workload, long bool) []imgConfig {
 }
 
 func (ic *imgCtx) caseOf(rc *recording, j imgJob) imgCase {
-	return imgCase{Kind: "img", Workload: ic.cfg.wl.Name, Cache: ic.cfg.cache, BlockFile: ic.cfg.wl.blockFile, Regime: rc.regime, Prefix: j.prefix, Dropped: j.dropped, Torn: j.torn, Long: ic.cfg.long, RecCache: -1}
+	return imgCase{Kind: "img", Workload: ic.cfg.wl.Name, Cache: ic.cfg.cache, BlockFile: ic.cfg.wl.blockFile, Regime: rc.regime, Prefix: j.prefix, Dropped: j.dropped, Torn: j.torn, Long: ic.cfg.long, RecCache: j.recCache}
 }
 
 // prepare records all regimes of a configuration, enumerates the distinct
@@ -902,10 +915,10 @@ func prepareImages(r *ev.Run, cfg imgConfig, regimes []flushRegime, st *imgStats
 					}
 				}
 				sort.Ints(dropped)
-				add(ds, imgJob{ri, p, dropped, false})
+				add(ds, imgJob{ri, p, dropped, false, -1})
 				// torn last write (only meaningful when the last write is kept)
 				if ds.lastIsWrite && n > 0 && mask&1 == 0 {
-					add(ds, imgJob{ri, p, dropped, true})
+					add(ds, imgJob{ri, p, dropped, true, -1})
 				}
 			}
 			if vary < n { // the all-lost image
@@ -913,8 +926,16 @@ func prepareImages(r *ev.Run, cfg imgConfig, regimes []flushRegime, st *imgStats
 				for _, w := range ds.pending {
 					dropped = append(dropped, w.idx)
 				}
-				add(ds, imgJob{ri, p, dropped, false})
+				add(ds, imgJob{ri, p, dropped, false, -1})
 			}
+		}
+	}
+	if cfg.long && cfg.cache == 1<<20 {
+		// operators restart with other settings: the same images once more with
+		// a zero-size utxo cache (recovery then flushes after every replayed block)
+		for _, j := range jobs[:len(jobs):len(jobs)] {
+			j.recCache = 0
+			jobs = append(jobs, j)
 		}
 	}
 	st.Distinct = len(jobs)
@@ -939,6 +960,19 @@ func prepareImages(r *ev.Run, cfg imgConfig, regimes []flushRegime, st *imgStats
 	}
 	lap(fmt.Sprintf("metadata(%d)", len(ms)))
 	return ic, recs, jobs
+}
+
+type imgFail struct {
+	job         int
+	class, what string
+}
+
+// cleanupScratch removes this process's scratch directories (before an abnormal exit).
+func cleanupScratch() {
+	m, _ := filepath.Glob(fmt.Sprintf("%s/verif-%d-*", lab.ShmRoot(), os.Getpid()))
+	for _, d := range m {
+		os.RemoveAll(d)
+	}
 }
 
 // phaseImages is the second phase of the check; returns false if it was cut short.
@@ -967,14 +1001,20 @@ func phaseImages(r *ev.Run, wls []*workload, long bool) bool {
 			r.Cap("part 2: time box hit before configuration " + cfg.String())
 			break
 		}
+		if atomic.LoadInt64(&failedOpens) > maxFailedOpens {
+			complete = false
+			r.Cap(fmt.Sprintf("part 2: stopped before configuration %s after %d images whose database.Open failed (each leaks the leveldb handle inside ffldb.openDB)", cfg, maxFailedOpens))
+			break
+		}
 		st := &imgStats{}
 		stats[cfg.String()] = st
 		ic, recs, jobs := prepareImages(r, cfg, regimes, st)
 		capped += int64(st.PrefixesCapped)
 		var mu sync.Mutex
 		harness := ""
+		fails := map[string]imgFail{}
 		ev.Par(len(jobs), runtime.NumCPU(), func(i int) {
-			if r.Expired() {
+			if r.Expired() || atomic.LoadInt64(&failedOpens) > maxFailedOpens {
 				mu.Lock()
 				complete = false
 				mu.Unlock()
@@ -986,7 +1026,7 @@ func phaseImages(r *ev.Run, wls []*workload, long bool) bool {
 			class, what := ic.check(rc, cc)
 			r.Eval(1)
 			r.Trace(1)
-			r.Nontrivial(fmt.Sprintf("img|%s|%s|%d|%v|%v", cfg, rc.regime, j.prefix, j.dropped, j.torn))
+			r.Nontrivial(fmt.Sprintf("img|%s|%s|%d|%v|%v|%d", cfg, rc.regime, j.prefix, j.dropped, j.torn, j.recCache))
 			atomic.AddInt64(&total, 1)
 			if class == "" {
 				return
@@ -999,11 +1039,27 @@ func phaseImages(r *ev.Run, wls []*workload, long bool) bool {
 			}
 			mu.Lock()
 			st.Failing++
+			// keep the first failing job (enumeration order) per key so that the
+			// reported representative does not depend on worker timing
+			k := imgKey(cfg.wl, class, rc, cc)
+			if f, ok := fails[k]; !ok || i < f.job {
+				fails[k] = imgFail{i, class, what}
+			}
 			mu.Unlock()
-			reportImage(r, ic, rc, cc, class, what)
 		})
 		if harness != "" {
+			cleanupScratch()
 			r.Broken("part 2: cannot materialise crash images: %s", harness)
+		}
+		var fkeys []string
+		for k := range fails {
+			fkeys = append(fkeys, k)
+		}
+		sort.Strings(fkeys)
+		for _, k := range fkeys {
+			f := fails[k]
+			rc := recs[jobs[f.job].rec]
+			reportImage(r, ic, rc, ic.caseOf(rc, jobs[f.job]), f.class, f.what)
 		}
 		r.State(len(jobs))
 		r.Trans(len(jobs) * len(cfg.wl.order))
@@ -1025,28 +1081,31 @@ func phaseImages(r *ev.Run, wls []*workload, long bool) bool {
 		"distinct_images_opened":   total,
 		"per_configuration":        stats,
 		"crash_during_recovery":    "enumerated at commit granularity only (part 1)",
-		"recovery_cache_dimension": "same cache size as before the crash",
+		"recovery_cache_dimension": map[bool]string{false: "same cache size as before the crash", true: "same cache size as before the crash; configurations with the 1 MiB cache additionally restarted with cache size 0"}[long],
 	})
 	return complete
+}
+
+// imgKey builds the violation key of a failing image.
+func imgKey(wl *workload, class string, rc *recording, cc imgCase) string {
+	if class == "convergence/stored-but-unconnected-block-is-refused-as-duplicate" {
+		// same cause, same key as in part 1 (the prune-extend workload is filed
+		// under "prune" so that the existing known-findings pattern matches)
+		return fmt.Sprintf("%s/any/%s", strings.TrimSuffix(wl.Name, "-extend"), class)
+	}
+	ds := stateAt(rc.log, cc.Prefix)
+	return fmt.Sprintf("img/%s/%s/%s", wl.Name, class, imgCause(ds, cc.Dropped, cc.Torn))
 }
 
 func reportImage(r *ev.Run, ic *imgCtx, rc *recording, cc imgCase, class, what string) {
 	// confirm twice
 	for i := 0; i < 2; i++ {
-		if c2, _ := ic.check(rc, cc); c2 != class {
-			r.Broken("crash image %+v did not reproduce (%s, then %q): %s", cc, class, c2, what)
+		if c2, w2 := ic.check(rc, cc); c2 != class {
+			cleanupScratch()
+			r.Broken("crash image %+v did not reproduce (%s, then %q: %s): %s", cc, class, c2, w2, what)
 		}
 	}
-	wl := ic.cfg.wl
-	key := ""
-	if class == "convergence/stored-but-unconnected-block-is-refused-as-duplicate" {
-		// same cause, same key as in part 1 (the prune-extend workload is filed
-		// under "prune" so that the existing known-findings pattern matches)
-		key = fmt.Sprintf("%s/any/%s", strings.TrimSuffix(wl.Name, "-extend"), class)
-	} else {
-		ds := stateAt(rc.log, cc.Prefix)
-		key = fmt.Sprintf("img/%s/%s/%s", wl.Name, class, imgCause(ds, cc.Dropped, cc.Torn))
-	}
+	key := imgKey(ic.cfg.wl, class, rc, cc)
 	if os.Getenv("C04_IMG_VERBOSE") != "" { // development aid: every failing image, not only one per key
 		fmt.Fprintf(os.Stderr, "FAIL %s cfg=%s regime=%s prefix=%d dropped=%v torn=%v: %s\n", key, ic.cfg, cc.Regime, cc.Prefix, cc.Dropped, cc.Torn, what)
 	}
@@ -1098,6 +1157,6 @@ func replayImage(r *ev.Run, cc imgCase) {
 		r.Broken("replay: %s", what)
 	}
 	if class != "" {
-		r.Violation("replay", what, cc)
+		r.Violation(imgKey(cfg.wl, class, rc, cc), what, cc)
 	}
 }
